@@ -29,7 +29,9 @@ the life-cycle does not depend on their identity, only on where they are (any mu
 requests = any number of `inject` actions interleaved with node steps before the stop begins).
 
 Trees are binary: an n-ary `SequentialServlet` is the nested binary one (same threads, same queues); ensembles
-and switches with more than two members are not modelled.
+and switches with more than two members are not modelled.  The model follows the repaired code: F11 (start
+clean-up), F12 (exit order), F18 (ledger reset), F24 (ensemble/switch stop order; `_dequeue` waits for every
+member).  The pinned behaviours are in Legacy/LifecyclePinned.lean.
 -/
 namespace Lifecycle
 
@@ -404,8 +406,9 @@ def compileServer (K : Nat) (t : Tree) (pinned : Bool := false) : Net :=
       script := if pinned then st ++ [.join g, .put buf, .join (g + 1)]
                 else [.put buf, .join (g + 1)] ++ st ++ [.join g, .clear] }
 
-/-! ## well-formedness of a network (decidable; checked by evaluation for every compiled tree the driver
-    sees, proved for … see Proofs/LifecycleWf.lean) -/
+/-! ## well-formedness of a network (decidable `Net.wf`; its Prop-level content `WF` is proved for the network
+    compiled from EVERY servlet tree in Proofs/LifecycleCompile.lean (`compile_WF`); the driver evaluates `wf`
+    for every tree it sees all the same) -/
 
 def wOf (net : Net) (c : Nat) : Nat := (net.ws[c]?).getD 0
 
